@@ -2340,6 +2340,8 @@ func VerifCallGraphNamesakes(n int) {
 func VerifNamespaces(n int) {
 	variant := verifapi.Concrete(verifapi.Int("variant", 0, 9))
 	depth := verifapi.Concrete(verifapi.Int("depth", 2, 3))
+	// the class method is called as `Bb.make` or, in the scope-operator form, as `Bb::make`
+	sep := []string{".", "::"}[verifapi.Concrete(verifapi.Int("callsep", 0, 1))]
 	s := verifInstallSym("a")
 	verifapi.WitnessList("Sym.a", verifKN(s.ka))
 	// the class group; q qualifies the superclass references (`class Bb < Mm::Nn::Aa`)
@@ -2356,7 +2358,7 @@ func VerifNamespaces(n int) {
 		last = "Cc"
 	}
 	refs := func(q string) string {
-		return "dbtp " + q + last + ".new.foo\ndbtp " + q + last + ".new.bar\ndbtp " + q + last + ".make\n" + q + last + ".new.nope\n"
+		return "dbtp " + q + last + ".new.foo\ndbtp " + q + last + ".new.bar\ndbtp " + q + last + sep + "make\n" + q + last + sep + "make + \"x\"\n" + q + last + ".new.nope\n"
 	}
 	top := group + refs("")
 	wrapped := "module Mm\n" + group + "end\n" + refs("Mm::")
@@ -2422,6 +2424,9 @@ func VerifNamespaces(n int) {
 	verifapi.Witness("C27.qual", qual)
 	verifapi.Witness("C27-ns.at", verifItoa(at))
 	verifapi.Witness("C27-ns.delta", verifItoa(delta))
+	if sep == "::" {
+		name += "/class-method-called-with-scope-operator"
+	}
 	verifapi.Classify("C27/" + name + "/depth" + verifItoa(depth))
 	if wrap > 0 {
 		// B's rows: +wrap for the `module` lines, and +wrap more after the group for their `end`s
